@@ -192,6 +192,7 @@ type Exec struct {
 	instDone      map[string]bool
 	recDepth      map[string]int
 	noMergeTop    bool
+	forProp       string // the property whose check this execution serves ("" = all clauses are obligations)
 	covers        bool   // generate vacuity covers (thorough tier)
 	coverProp     string // ... for the clauses of this property only
 	coverVCs      []*VC
@@ -1360,8 +1361,14 @@ func (x *Exec) doReturn(st *State, in *ssa.Return) {
 			}
 		}
 		x.addVC(st, "ensures", "ensures/"+lbl, c.Prop, in.Pos(), t, c.Src)
-		// later postconditions may rely on earlier ones (all of them are proved)
-		st.assume(t)
+		// later postconditions may rely on earlier ones -- but only on those that
+		// the check at hand also proves: a clause tagged with another property is
+		// not an obligation of this property's check and must not be assumed by it
+		// (a seeded change that broke a C11 clause made every later C03 clause
+		// vacuously true).
+		if x.forProp == "" || c.Prop == "" || c.Prop == x.forProp || alsoTag(x.forProp, c.Prop) {
+			st.assume(t)
+		}
 	}
 	if x.c.Allocs >= 0 && st.allocs > x.c.Allocs {
 		x.addVC(st, "allocs", "allocs_bound", "C18", in.Pos(), False,
